@@ -450,18 +450,24 @@ func Classify(err error) string {
 	switch {
 	case err == nil:
 		return OK
-	case errors.Is(err, witness.ErrUnknownLog):
+	// The sentinels are compared by identity, as the callers in the
+	// repository do (the bastion handler switches on them): a WRAPPED sentinel
+	// is a different answer for those callers and gets its own class.
+	case err == witness.ErrUnknownLog:
 		return Unknown
-	case errors.Is(err, witness.ErrNoValidSignature):
+	case err == witness.ErrNoValidSignature:
 		return NoSig
-	case errors.Is(err, witness.ErrOldSizeInvalid):
+	case err == witness.ErrOldSizeInvalid:
 		return OldInvalid
-	case errors.Is(err, witness.ErrCheckpointStale):
+	case err == witness.ErrCheckpointStale:
 		return Stale
-	case errors.Is(err, witness.ErrRootMismatch):
+	case err == witness.ErrRootMismatch:
 		return RootMismatch
-	case errors.Is(err, witness.ErrInvalidProof):
+	case err == witness.ErrInvalidProof:
 		return BadProof
+	case errors.Is(err, witness.ErrUnknownLog), errors.Is(err, witness.ErrNoValidSignature), errors.Is(err, witness.ErrOldSizeInvalid),
+		errors.Is(err, witness.ErrCheckpointStale), errors.Is(err, witness.ErrRootMismatch), errors.Is(err, witness.ErrInvalidProof):
+		return "wrapped-sentinel"
 	}
 	return Other
 }
